@@ -16,6 +16,11 @@ Line-protocol driver for the C13 models (calendar, interval calculators, query p
   brange <c> <t>                    -> <start> <end>                    (timeRangeOfTimestamp)
   fqr <c> <base> <qs> <qe>          -> <start> <end>                    (GetDataFamilies' familyQueryTimeRange)
   gdf <c> <qs> <qe> | t1 t2 ...     -> sorted family starts | none      (Shard.GetDataFamilies over the families of t1..)
+                                       (both in the code variant the regenerated fact gdfRangeExprs selects;
+                                        `unknown-variant` if the source text is neither known variant)
+  batch <c> t1 t2 ...               -> F:t,t,.. F:t,..  (family groups of one shard's rows, BrokerBatchShardFamilyIterator;
+                                        groups sorted by family, rows sorted) | none
+  rollup <src> <tgt> <srcFamilyTime> <slot> -> <targetFTime> <ratio> <baseSlot> <ts> <slot(ts)> | panic
   overlap <s1> <e1> <s2> <e2>       -> true | false
   intersect <s1> <e1> <s2> <e2>     -> <s> <e>
   qi <start> <end> <interval>       -> CalcQueryInterval
@@ -27,6 +32,7 @@ Line-protocol driver for the C13 models (calendar, interval calculators, query p
 -/
 import LinVerif.Util.Proto
 import LinVerif.Model.Interval
+import LinVerif.Generated.C13
 
 namespace LinVerif.Driver.C13
 open LinVerif LinVerif.Interval
@@ -47,6 +53,16 @@ def splitBar (ws : List String) : List (List String) :=
     match acc with
     | [] => [[w]]
     | h :: t => (w :: h) :: t) [[]]
+
+/-- the lookup variant of the current source (regenerated fact) -/
+def lookupVariant : Option LookupVariant := lookupVariantOf LinVerif.Generated.C13.gdfRangeExprs
+
+def sortInts (l : List Int) : List Int := (l.toArray.qsort (· < ·)).toList
+
+def showGroups (gs : List (Int × List Int)) : String :=
+  let gs := (gs.toArray.qsort (fun a b => a.1 < b.1 || (a.1 == b.1 && (sortInts a.2).headD 0 < (sortInts b.2).headD 0))).toList
+  if gs.isEmpty then "none" else
+  " ".intercalate (gs.map fun (f, rows) => s!"{f}:" ++ ",".intercalate ((sortInts rows).map toString))
 
 def ints (ws : List String) : Option (List Int) := ws.mapM String.toInt?
 
@@ -116,7 +132,10 @@ def step (st : Unit) (ws : List String) : Unit × String :=
       | _, _ => "bad-op"
     | ["fqr", c, b, qs, qe] =>
       match parseCalc c, b.toInt?, qs.toInt?, qe.toInt? with
-      | some c, some b, some qs, some qe => showRange (familyQueryTimeRange c b ⟨qs, qe⟩)
+      | some c, some b, some qs, some qe =>
+        match lookupVariant with
+        | some v => showRange (familyQueryTimeRange v c b ⟨qs, qe⟩)
+        | none => "unknown-variant"
       | _, _, _, _ => "bad-op"
     | ["overlap", a, b, c, d] =>
       match a.toInt?, b.toInt?, c.toInt?, d.toInt? with
@@ -146,10 +165,26 @@ def step (st : Unit) (ws : List String) : Unit × String :=
       | [[c, qs, qe], ts] =>
         match parseCalc c, qs.toInt?, qe.toInt?, ints ts with
         | some c, some qs, some qe, some ts =>
-          let r := (getDataFamilies c ⟨qs, qe⟩ ts).toArray.qsort (· < ·) |>.toList.eraseDups
-          if r.isEmpty then "none" else Proto.joinInt r
+          match lookupVariant with
+          | some v =>
+            let r := (sortInts (getDataFamilies v c ⟨qs, qe⟩ ts)).eraseDups
+            if r.isEmpty then "none" else Proto.joinInt r
+          | none => "unknown-variant"
         | _, _, _, _ => "bad-op"
       | _ => "bad-op"
+    | "batch" :: c :: rest =>
+      match parseCalc c, ints rest with
+      | some c, some ts => showGroups (groupFamilies c ts)
+      | _, _ => "bad-op"
+    | ["rollup", src, tgt, f, k] =>
+      match src.toInt?, tgt.toInt?, f.toInt?, k.toInt? with
+      | some src, some tgt, some f, some k =>
+        let tf := rollupTargetFamilyTime tgt f
+        let ts := rollupGetTimestamp src f k
+        match rollupIntervalRatio src tgt, rollupBaseSlot tgt f tf, rollupCalcSlot tgt tf ts with
+        | some r, some b, some sl => s!"{tf} {r} {b} {ts} {sl}"
+        | _, _, _ => "panic"
+      | _, _, _, _ => "bad-op"
     | "match" :: rest =>
       match splitBar rest with
       | [[q], ivs] =>
